@@ -450,6 +450,7 @@ class Linker:
         lst = []
         for relocation in self.dst.relocations:
             sym_value = self.get_symbol_value(relocation.symbol_id)
+            sym_value += relocation.addend
             reloc_section = self.dst.get_section(relocation.section)
             reloc_value = reloc_section.address + relocation.offset
             rcls = self.dst.arch.isa.relocation_map[relocation.reloc_type]
@@ -620,6 +621,7 @@ class Linker:
         according to symbol location and relocation location in the file.
         """
         sym_value = self.get_symbol_value(relocation.symbol_id)
+        sym_value += relocation.addend
         section = self.dst.get_section(relocation.section)
 
         # Determine address in memory of reloc patchup position:
